@@ -246,9 +246,11 @@ RegTypeOK(s) == /\ s.ot \in {OpNone, OpReg} /\ s.rt \in 0..31 /\ s.grp \in 0..15
 
 (* casts: the member functions documented as "Clones and casts this register to ..." *)
 X86Casts == [r8 |-> RtGp8Lo, r8_lo |-> RtGp8Lo, r8_hi |-> RtGp8Hi, r16 |-> RtGp16, r32 |-> RtGp32, r64 |-> RtGp64,
-             v128 |-> RtVec128, v256 |-> RtVec256, v512 |-> RtVec512, xmm |-> RtVec128, ymm |-> RtVec256, zmm |-> RtVec512]
+             v128 |-> RtVec128, v256 |-> RtVec256, v512 |-> RtVec512, xmm |-> RtVec128, ymm |-> RtVec256, zmm |-> RtVec512,
+             u_r32 |-> RtGp32, u_r64 |-> RtGp64, u_v128 |-> RtVec128, u_v256 |-> RtVec256, u_v512 |-> RtVec512]   \* UniGp / UniVec "Unified Accessors"
 A64Casts == [r32 |-> RtGp32, r64 |-> RtGp64, w |-> RtGp32, x |-> RtGp64, v8 |-> RtVec8, v16 |-> RtVec16, v32 |-> RtVec32,
-             v64 |-> RtVec64, v128 |-> RtVec128, b |-> RtVec8, h |-> RtVec16, s |-> RtVec32, d |-> RtVec64, q |-> RtVec128]
+             v64 |-> RtVec64, v128 |-> RtVec128, b |-> RtVec8, h |-> RtVec16, s |-> RtVec32, d |-> RtVec64, q |-> RtVec128,
+             u_r32 |-> RtGp32, u_r64 |-> RtGp64, u_v128 |-> RtVec128, u_v256 |-> RtVec256, u_v512 |-> RtVec512]
 (* "Clones and casts the register to V.8B" etc.: <<register type, element type>> *)
 A64Arrangements == [b8 |-> <<RtVec64, EtB>>, b16 |-> <<RtVec128, EtB>>, h2 |-> <<RtVec32, EtH>>, h4 |-> <<RtVec64, EtH>>,
                     h8 |-> <<RtVec128, EtH>>, s2 |-> <<RtVec64, EtS>>, s4 |-> <<RtVec128, EtS>>, d2 |-> <<RtVec128, EtD>>]
@@ -339,6 +341,8 @@ RegView(s) ==
         (* Operand_::is_gp(id) / is_vec(id) / is_reg(type, id)                                                          *)
         ogpid |-> isr /\ s.grp = GrpGp, ovecid |-> isr /\ s.grp = GrpVec, otid |-> isr,    \* asked with the register's own id
         ogpidx |-> FALSE, ovecidx |-> FALSE, otidx |-> FALSE,                               \* asked with another id
+        oidvar |-> TRUE, ridvar |-> TRUE,              \* every is_<type>(id) overload agrees with is_<type>() /\ id() = id
+        basesig |-> TRUE,                              \* has_base_signature(RegTraits signature of its own type)
         (* Reg:: versions - judged for proper registers only (typed): "here we don't have to [check the operand type]" *)
         rtf |-> IF typed THEN [i \in 1..Len(TypePreds) |-> B(s.rt = TypePreds[i])] ELSE <<>>,
         rgp |-> typed /\ s.grp = GrpGp, rvec |-> typed /\ s.grp = GrpVec, rgp8 |-> typed /\ s.rt \in {RtGp8Lo, RtGp8Hi}]
@@ -585,7 +589,7 @@ View(s) == CASE IsMem(s) -> MemView(s)  [] IsRegM(s) -> RegView(s)  [] s.m = "im
              [] s.m = "label" -> LabelView(s)  [] s.m = "reglist" -> RegListView(s)  [] s.m = "regonly" -> RegOnlyView(s)
              [] s.m = "env" -> EnvView(s)
 (* view fields that are not judged in state s *)
-RegTypedOnly == {"rtf", "rgp", "rvec", "rgp8", "xmm", "ymm", "zmm", "vb8", "vh4", "vs2", "vb16", "vh8", "vs4", "vd2", "vb4x4", "vh2x4"}
+RegTypedOnly == {"basesig", "rtf", "rgp", "rvec", "rgp8", "xmm", "ymm", "zmm", "vb8", "vh4", "vs2", "vb16", "vh8", "vs4", "vd2", "vb4x4", "vh2x4"}
 Unjudged(s) == CASE IsRegM(s) -> IF s.ot = OpReg /\ s.rt \in ValidRegTypes THEN {} ELSE RegTypedOnly
                  [] s.m = "env" -> IF s.arch \in DefinedArchs THEN {} ELSE EnvKnownOnly
                  [] OTHER -> {}
